@@ -436,8 +436,8 @@ def make_handler(w: World, hi: int, hspec: dict):
             return hi
         if ret == 'none':
             return None
-        if ret == 'excobj':
-            ex = ValueError(f'returned-exc {me}')
+        if ret in ('excobj', 'excobj_to'):
+            ex = ValueError(f'returned-exc {me}') if ret == 'excobj' else TimeoutError(f'returned-timeout-object {me}')
             w.raised[tuple(me)] = ex
             return ex
         if ret == 'str':
@@ -629,7 +629,7 @@ def make_handler(w: World, hi: int, hspec: dict):
             if st is not None:
                 st['awaiting'] = None
         inc = w.incomplete_descendants(tag)
-        w.rec('aw-end', by=list(me), ev=tag, same=got is child, complete=w.is_complete(child), inc=inc, statuses=[r.status for r in child.event_results.values()])
+        w.rec('aw-end', by=list(me), ev=tag, same=got is child, complete=w.is_complete(child), inc=inc, statuses=[r.status for r in child.event_results.values()], acc=via_accessor)
         if w.watch and w.is_complete(child):
             w.mark_observed_complete(tag, 'handler-await')
 
